@@ -1,5 +1,7 @@
 import PandoraModel.Properties.C13
 import PandoraModel.Properties.C13Steps
+import PandoraModel.Properties.C13Util
+import PandoraModel.Properties.C13Median
 open Pandora.C13
 #print axioms Local.comp
 #print axioms Local.pair
@@ -13,3 +15,10 @@ open Pandora.C13
 #print axioms toDisp_is_wtaStep
 #print axioms wtaStep_local
 #print axioms wta_crop_eq_whole
+#print axioms stencil_local_of_bounds
+#print axioms toImg_crop
+#print axioms crop_run_eq_whole
+#print axioms medianStep_local
+#print axioms medianStep_equivariant
+#print axioms medianFilterDisparity_is_medianStep
+#print axioms median_crop_eq_whole
